@@ -85,6 +85,11 @@ where
     }
 
     pub fn get(&self, idx: usize) -> Result<T, ReadError> {
+        // Items may have zero length, in which case the start of any item
+        // would be in bounds.
+        if idx >= self.len {
+            return Err(ReadError::OutOfBounds);
+        }
         let item_start = idx
             .checked_mul(self.item_len)
             .ok_or(ReadError::OutOfBounds)?;
